@@ -115,6 +115,12 @@ func (c *RunnerCloserManager) AddCloser(closers ...any) error {
 	c.mngr.lock.Lock()
 	defer c.mngr.lock.Unlock()
 
+	// Check again now that we hold the lock: Run holds it from the moment it starts invoking the closers, and a closer
+	// registered after that point would never be invoked
+	if c.closing.Load() {
+		return ErrManagerAlreadyClosed
+	}
+
 	var errs []error
 	for _, cl := range closers {
 		switch v := cl.(type) {
